@@ -25,9 +25,11 @@ class C16(Driver):
     budgets = {"quick": 60, "thorough": 1200}
     rule = ("plan = stream directions (os/pipe, unix socket, cat child, emitting child) x reader/writer fibers with "
             "seeded sizes around the configured buffer size, read kinds (read/chunk/:all), close positions, x seeded "
-            "fault probabilities (EINTR, spurious EAGAIN, short counts, epoll delay/reorder) and buffer sizes; "
+            "fault probabilities (EINTR, spurious EAGAIN, short counts, epoll delay/reorder) and buffer sizes; plus optional "
+            "tasks: os/execute with/without :x, waits cut short, a bystander child, child chains, bursts of 5-40 child exits "
+            "while the loop is away, a socket closed locally with reader and writer parked, half-close, tasks in other threads; "
             "non-trivial = at least one fault fired or an operation had to wait; distinct = sha256(plan, fired faults)")
-    assumptions = ["child processes are in-process actors (stub); posix_spawn/FD_CLOEXEC inheritance is not exercised",
+    assumptions = ["child processes are in-process actors (stub) that hold duplicates of every tracked descriptor which was not close-on-exec at spawn time and is not closed by the file actions, until they exit",
                    "TCP loopback is out of scope (delivery is not synchronous with send); AF_UNIX shares the net.c stream paths",
                    "an injected EAGAIN/short count is always followed by a synthetic epoll edge; readiness may be "
                    "delayed or reordered but is never dropped"]
